@@ -103,6 +103,8 @@ def run_shard(shard):
     if kind == 'mixed':
         for s in layers.mixed_arg_strings():
             check_string(acc, s, 'mixed-order arguments')
+        for s in layers.env_name_strings():
+            check_string(acc, s, 'environment names')
     elif kind == 'sigma':
         for s in strings.iter_strings(shard):
             check_string(acc, s, 'sigma-' + shard['alpha'])
